@@ -6,7 +6,10 @@ TARGETS = [("fn", "menelaus.detector:StreamingDetector._validate_X"),
           [("fn", SCALAR[c] + ".update") for c in SCALAR] + \
           [("fn", "menelaus.change_detection.adwin:ADWIN.update"), ("fn", "menelaus.concept_drift.adwin_accuracy:ADWINAccuracy.update"),
            ("fn", "menelaus.data_drift.kdq_tree:KdqTreeStreaming.update"),
-           ("fn", "menelaus.concept_drift.lfr:LinearFourRates.update@tnr")]
+           ("fn", "menelaus.concept_drift.lfr:LinearFourRates.update@tnr"),
+           ("fn", "menelaus.data_drift.kdq_tree:KdqTreeBatch.update"), ("fn", "menelaus.data_drift.kdq_tree:KdqTreeBatch.set_reference"), ("fn", "menelaus.data_drift.nndvi:NNDVI.update"), ("fn", "menelaus.data_drift.nndvi:NNDVI.set_reference"),
+           ("fn", "menelaus.data_drift.histogram_density_method:HistogramDensityMethod.set_reference")]
+TARGETS_THOROUGH = [("fn", "menelaus.data_drift.histogram_density_method:HistogramDensityMethod.update")]
 LEVEL = "proof"
 ASSUMPTIONS = A_COMMON + [
     "a rejected call is harmless *modulo the pending reset*: every detector performs the reset that follows a "
